@@ -2,7 +2,7 @@
     Each theorem is closed by [exact] and followed by [Print Assumptions]. *)
 From Coq Require Import Reals ZArith List Floats.
 From Celer Require Import Base.Num Base.NumR Base.NumF Base.Stream Base.Vec3
-  C15.Samplers C15.SamplersProofs C15.SamplersWitness.
+  C15.Samplers C15.SamplersProofs C15.SamplersWitness C15.SamplersLaws C15.Eloss C15.ElossProofs.
 Import ListNotations.
 Local Open Scope R_scope.
 
@@ -90,3 +90,131 @@ Theorem C15_draws_exact : forall a b l p (v : vec3 R) u1 u2 u3 s,
   consumed (u1 :: u2 :: u3 :: s) (uniform_box (T:=R) v v (u1 :: u2 :: u3 :: s)) = Some 3%nat.
 Proof. exact draws_exact. Qed.
 Print Assumptions C15_draws_exact.
+
+(** ** Part 2: further supports, exact laws (quantile identities) and
+    specifications.  [cum ws k] = w_0 + ... + w_{k-1};
+    [prod_first p us m] = p u_1 ... u_m. *)
+Theorem C15_radial_support : forall r u s, 0 <= r -> canonical u ->
+  exists x, radial (T:=R) r (u :: s) = Some (x, s) /\ 0 <= x <= r /\ (0 < r -> x < r).
+Proof. exact radial_support. Qed.
+Print Assumptions C15_radial_support.
+
+Theorem C15_radial_quantile : forall r u s, 0 < r -> 0 <= u ->
+  exists x, radial (T:=R) r (u :: s) = Some (x, s) /\ (x / r) * (x / r) * (x / r) = u.
+Proof. exact radial_quantile. Qed.
+Print Assumptions C15_radial_quantile.
+
+Theorem C15_reciprocal_quantile : forall a b u s, 0 < a -> a < b ->
+  exists x, reciprocal (T:=R) a b (u :: s) = Some (x, s) /\ ln (x / a) / ln (b / a) = u.
+Proof. exact reciprocal_quantile. Qed.
+Print Assumptions C15_reciprocal_quantile.
+
+Theorem C15_uniform_box_support : forall (lo hi : vec3 R) u1 u2 u3 s,
+  vx lo <= vx hi -> vy lo <= vy hi -> vz lo <= vz hi ->
+  canonical u1 -> canonical u2 -> canonical u3 ->
+  exists v, uniform_box lo hi (u1 :: u2 :: u3 :: s) = Some (v, s) /\
+    vx lo <= vx v <= vx hi /\ vy lo <= vy v <= vy hi /\ vz lo <= vz v <= vz hi.
+Proof. exact uniform_box_support. Qed.
+Print Assumptions C15_uniform_box_support.
+
+(** Selector: general specification, then the law P(i) = w_i / sum w as the
+    length of the u-interval that selects i, and disjointness of the intervals *)
+Theorem C15_selector_spec : forall ws total u s, ws <> [] ->
+  exists i, selector (T:=R) ws total (u :: s) = Some (i, s) /\ (i < length ws)%nat /\
+    (forall j, (j < i)%nat -> cum ws (S j) <= total * u) /\
+    ((i < length ws - 1)%nat -> total * u < cum ws (S i)).
+Proof. exact selector_spec. Qed.
+Print Assumptions C15_selector_spec.
+
+Theorem C15_selector_quantile : forall ws total u s,
+  ws <> [] -> Forall (fun w => 0 <= w) ws -> total = cum ws (length ws) -> 0 < total -> canonical u ->
+  exists i, selector (T:=R) ws total (u :: s) = Some (i, s) /\ (i < length ws)%nat /\
+    cum ws i / total <= u < cum ws (S i) / total.
+Proof. exact selector_quantile. Qed.
+Print Assumptions C15_selector_quantile.
+
+Theorem C15_selector_interval_unique : forall ws total u i j,
+  Forall (fun w => 0 <= w) ws -> 0 < total ->
+  cum ws i / total <= u < cum ws (S i) / total ->
+  cum ws j / total <= u < cum ws (S j) / total -> i = j.
+Proof. exact selector_interval_unique. Qed.
+Print Assumptions C15_selector_interval_unique.
+
+(** Normal: the exact Box-Muller identity, and finiteness for u2 > 0 *)
+Theorem C15_normal_box_muller : forall mean sd u1 u2 s, 0 < u2 <= 1 ->
+  exists x z2, normal_step (T:=R) mean sd None (u1 :: u2 :: s) = Some ((x, Some z2), s) /\
+    let r := R_sqrt.sqrt (-2 * ln u2) in
+    x = mean + sd * (r * sin (twopi * u1)) /\ z2 = r * cos (twopi * u1) /\
+    r * r = -2 * ln u2 /\
+    (r * sin (twopi * u1)) * (r * sin (twopi * u1)) + z2 * z2 = -2 * ln u2 /\
+    exp (- ((r * sin (twopi * u1)) * (r * sin (twopi * u1)) + z2 * z2) / 2) = u2.
+Proof. exact normal_box_muller. Qed.
+Print Assumptions C15_normal_box_muller.
+
+Theorem C15_normal_support_finite : forall mean sd u1 u2 s, 0 <= sd -> 0 < u2 <= 1 ->
+  exists x st, normal_step (T:=R) mean sd None (u1 :: u2 :: s) = Some ((x, st), s) /\
+    Rabs (x - mean) <= sd * R_sqrt.sqrt (-2 * ln u2).
+Proof. exact normal_support_finite. Qed.
+Print Assumptions C15_normal_support_finite.
+
+(** Poisson direct method (lambda <= 16): k + 1 = least m with
+    e^lambda u_1 ... u_m <= 1, i.e. the least k with prod_{j <= k+1} u_j <= e^-lambda *)
+Theorem C15_poisson_direct_spec : forall lambda s k s', lambda <= 16 ->
+  poisson (T:=R) true lambda s = Some (k, s') ->
+  exists m, (1 <= m)%nat /\ k = (Z.of_nat m - 1)%Z /\ length s = (m + length s')%nat /\
+    prod_first (exp lambda) s m <= 1 /\ forall j, (1 <= j < m)%nat -> 1 < prod_first (exp lambda) s j.
+Proof. exact poisson_direct_spec. Qed.
+Print Assumptions C15_poisson_direct_spec.
+
+Theorem C15_poisson_terminates_on_low_draw : forall lambda pre u post,
+  0 <= lambda <= 16 -> Forall canonical pre -> canonical u -> u <= exp (- lambda) ->
+  exists k s', poisson (T:=R) true lambda (pre ++ u :: post) = Some (k, s') /\
+    (0 <= k <= Z.of_nat (length pre))%Z.
+Proof. exact poisson_terminates_on_low_draw. Qed.
+Print Assumptions C15_poisson_terminates_on_low_draw.
+
+(** Gamma (Marsaglia-Tsang): positive when it returns; the accepted triple
+    passed the squeeze or the exact logarithmic test *)
+Theorem C15_gamma_support : forall alpha beta s x s', 0 < alpha -> 0 < beta ->
+  Forall (fun u => 0 < u < 1) s ->
+  gamma (T:=R) alpha beta s = Some (x, s') -> 0 < x.
+Proof. exact gamma_support. Qed.
+Print Assumptions C15_gamma_support.
+
+Theorem C15_gamma_acceptance : forall d c fuel st s x s',
+  gamma_outer (T:=R) fuel d c st s = Some (x, s') ->
+  exists z v u, v = 1 + c * z /\ 0 < v /\ x = d * (v * v * v) /\
+    (u <= 1 - 331 / 10000 * (z * z * (z * z))
+     \/ ln u <= 1 / 2 * (z * z) + d * (1 - v * v * v + ln (v * v * v))).
+Proof. intros d c fuel st s x s'. exact (gamma_outer_spec d c fuel st s x s'). Qed.
+Print Assumptions C15_gamma_acceptance.
+
+(** ** Part 3: Tsai-Urban and energy-loss fluctuation distributions *)
+Theorem C15_tsai_urban_support : forall e m s x s', 0 < m -> 0 <= e -> Forall canonical s ->
+  tsai_urban (T:=R) e m s = Some (x, s') -> -1 <= x <= 1.
+Proof. exact tsai_urban_support. Qed.
+Print Assumptions C15_tsai_urban_support.
+
+Theorem C15_tsai_urban_terminates_on_high_draw : forall umax f u1 u2 u3 s,
+  0 < umax -> exp (- (umax / (16 / 10))) <= u1 * u2 <= 1 ->
+  exists x, tsai_urban_loop (T:=R) (S f) umax (u1 :: u2 :: u3 :: s) = Some (x, s).
+Proof. exact tsai_urban_terminates_on_high_draw. Qed.
+Print Assumptions C15_tsai_urban_terminates_on_high_draw.
+
+Theorem C15_eloss_gauss_support : forall mean sd st s x st' s',
+  eloss_gauss (T:=R) mean sd st s = Some ((x, st'), s') -> 0 < x <= 2 * mean.
+Proof. exact eloss_gauss_support. Qed.
+Print Assumptions C15_eloss_gauss_support.
+
+Theorem C15_eloss_gamma_support : forall mean var s x s', 0 < mean -> 0 < var ->
+  Forall (fun u => 0 < u < 1) s -> eloss_gamma (T:=R) mean var s = Some (x, s') -> 0 < x.
+Proof. exact eloss_gamma_support. Qed.
+Print Assumptions C15_eloss_gamma_support.
+
+Theorem C15_eloss_model_cases : forall ml me mt mr bv,
+  let m := eloss_model (T:=R) ml me mt mr bv in
+  (m = 0%nat <-> (ml < 1 / 100000 \/ me <= 1 / 100000)) /\
+  (m = 2%nat -> 4 * bv <= ml * ml /\ mr < 1 /\ 10 * me <= ml /\ mt <= 2 * me) /\
+  (m = 1%nat -> ml * ml < 4 * bv /\ mr < 1 /\ 10 * me <= ml /\ mt <= 2 * me).
+Proof. exact eloss_model_cases. Qed.
+Print Assumptions C15_eloss_model_cases.
